@@ -9,6 +9,7 @@ From PowHsm Require Import Proofs.C11.
 From PowHsm Require Import Gen.SrcM.
 From PowHsm Require Import Proofs.SrcEquivDongleM.
 From PowHsm Require Import Proofs.SrcEquivProtoM.
+From PowHsm Require Import Proofs.SrcEquivBringupM.
 Open Scope N_scope.
 
 (* closed check on the generated except-ladders: every v5 handler maps a link error to (flag set, device error) and a timeout to (flag untouched, device error) *)
@@ -207,5 +208,15 @@ Theorem C11_source_reset_advance_handler_is_model :
          srcm_HSM2ProtocolLedger___reset_advance_blockchain init self request w =
          mres rtuple_pv (op_reset_advance kind req w).
 Proof. exact (@srcm_reset_advance_blockchain_ok). Qed.
+
+(* the bring-up that ensure_connection re-runs, as translated from the source, is the model's: together with C11_source_ensure_connection_is_model the repair of the translated source is the model's repair without any abstract parameter *)
+Theorem C11_source_initialize_device_is_model :
+  forall (fields : list (string * pv)) (w : world),
+         pin_small w ->
+         pin_new_small w ->
+         rand_small w ->
+         srcm_HSM2ProtocolLedger__initialize_device (proto_obj fields) w =
+         mres (fun _ : unit => VNone) (initialize_device KLedger w).
+Proof. exact (@srcm_initialize_device_ok). Qed.
 
 Example C11_nonvacuous : True. Proof. exact I. Qed. (* concrete three-request lifetimes closed by vm_compute in Proofs/C11.v, Module Examples *)
